@@ -1,9 +1,163 @@
-(* C05 — typed value extraction returns the first match in family order, else the default. *)
-From Coq Require Import List Arith Bool.
-Require Import CCP.Lib.Res CCP.Model.Search CCP.Model.Extract CCP.Proofs.C05Proofs.
-Import ListNotations.
+(* C05 — Typed value extraction returns the first match in family order, else the default.
 
-Theorem C05_re_match_typed_nomatch : forall mg conv dconv draw l u,
-  mg l = NoM -> re_match_typed mg conv dconv draw l u = default_result dconv draw u.
-Proof. exact re_match_typed_nomatch. Qed.
-Print Assumptions C05_re_match_typed_nomatch.
+   Every theorem is about the executable model Model/Extract.v (tied to /repo by the correspondence
+   stream of harness/props/c05.py) and holds for EVERY forest `kids`, EVERY regex/group oracle
+   `mg : line -> NoM | MNone | MBad | MGrp s` and EVERY conversion oracle (conv, conv_none, dconv, draw).
+   Specification vocabulary (Proofs/C05Proofs.v):
+     family recurse l         the lines a call on line l looks at, in order: l, then its direct children
+                              (recurse=false) or all its descendants in ascending line order (recurse=true)
+     roots                    the lines that are their own parent, in config order
+     first_match_result ls u  convert (requested group of the FIRST line of ls that matches), else the
+                              default: `dconv` = result_type(default), or `Ok draw` = the default untouched when u
+     mapM                     conversions in order, the first failure raises
+   Hypothesis WF kids (children have larger line numbers; checked on every real case) is needed only to
+   describe all_children as "the descendants in ascending order".
+   The statement's quantifier is "the requested group participates in the match" (mg x = MGrp s, theorem
+   C05_convert_group); for an optional group that does not participate the iterating variants convert None
+   (finding F24, information only: C05_F24_iter_differs_from_typed). *)
+From Coq Require Import List Arith Bool Sorting.Sorted.
+Import ListNotations.
+Require Import CCP.Lib.Res CCP.Model.Search CCP.Model.Extract CCP.Proofs.C04Proofs CCP.Proofs.C05Proofs.
+
+(* ---- re_match_iter_typed = first match of the family, else the default ---- *)
+Theorem C05_iter_first_match :
+  forall (kids : list (list nat)) (mg : nat -> mres) (conv : nat -> result nat)
+  (conv_none dconv : result nat) (draw l : nat) (recurse untyped : bool),
+  re_match_iter_typed kids mg conv conv_none dconv draw l recurse untyped =
+  first_match_result mg conv conv_none dconv draw (family kids recurse l) untyped.
+Proof. exact iter_first_match. Qed.
+Print Assumptions C05_iter_first_match.
+
+Theorem C05_first_match_some :
+  forall (mg : nat -> mres) (conv : nat -> result nat) (conv_none dconv : result nat)
+  (draw : nat) (ls : list nat) (untyped : bool) (pre : list nat) (x : nat)
+  (post : list nat),
+  ls = (pre ++ x :: post)%list ->
+  is_match mg x = true ->
+  (forall y : nat, List.In y pre -> is_match mg y = false) ->
+  first_match_result mg conv conv_none dconv draw ls untyped = convert mg conv conv_none x.
+Proof. exact first_match_some. Qed.
+Print Assumptions C05_first_match_some.
+
+Theorem C05_first_match_none :
+  forall (mg : nat -> mres) (conv : nat -> result nat) (conv_none dconv : result nat)
+  (draw : nat) (ls : list nat) (untyped : bool),
+  (forall y : nat, List.In y ls -> is_match mg y = false) ->
+  first_match_result mg conv conv_none dconv draw ls untyped = (if untyped then Ok draw else dconv).
+Proof. exact first_match_none. Qed.
+Print Assumptions C05_first_match_none.
+
+Theorem C05_first_match_cases :
+  forall (mg : nat -> mres) (conv : nat -> result nat) (conv_none dconv : result nat)
+  (draw : nat) (ls : list nat) (untyped : bool),
+  (exists (pre : list nat) (x : nat) (post : list nat),
+  ls = (pre ++ x :: post)%list /\
+  is_match mg x = true /\
+  (forall y : nat, List.In y pre -> is_match mg y = false) /\
+  first_match_result mg conv conv_none dconv draw ls untyped = convert mg conv conv_none x) \/
+  (forall y : nat, List.In y ls -> is_match mg y = false) /\
+  first_match_result mg conv conv_none dconv draw ls untyped = (if untyped then Ok draw else dconv).
+Proof. exact first_match_cases. Qed.
+Print Assumptions C05_first_match_cases.
+
+Theorem C05_convert_group :
+  forall (mg : nat -> mres) (conv : nat -> result nat) (conv_none : result nat) (x s : nat),
+  mg x = MGrp s -> convert mg conv conv_none x = conv s.
+Proof. exact convert_group. Qed.
+Print Assumptions C05_convert_group.
+
+(* ---- the family order ---- *)
+Theorem C05_family_direct :
+  forall (kids : list (list nat)) (l : nat), family kids false l = (l :: children kids l)%list.
+Proof. exact family_direct. Qed.
+Print Assumptions C05_family_direct.
+
+Theorem C05_family_recurse :
+  forall (kids : list (list nat)) (l : nat),
+  WF kids ->
+  exists ds : list nat,
+  family kids true l = (l :: ds)%list /\
+  Sorted.StronglySorted le ds /\
+  (forall x : nat, List.In x ds <-> Desc kids l x) /\
+  (forall x : nat, List.In x ds -> l < x < length kids).
+Proof. exact family_recurse. Qed.
+Print Assumptions C05_family_recurse.
+
+(* ---- re_list_iter_typed = every match of the family, in order ---- *)
+Theorem C05_list_all_matches :
+  forall (kids : list (list nat)) (mg : nat -> mres) (conv : nat -> result nat)
+  (conv_none : result nat) (l : nat) (recurse : bool),
+  re_list_iter_typed kids mg conv conv_none l recurse =
+  mapM (convert mg conv conv_none) (List.filter (is_match mg) (family kids recurse l)).
+Proof. exact list_all_matches. Qed.
+Print Assumptions C05_list_all_matches.
+
+Theorem C05_list_all_matches_ok :
+  forall (kids : list (list nat)) (mg : nat -> mres) (conv : nat -> result nat)
+  (conv_none : result nat) (l : nat) (recurse : bool) (vs : list nat),
+  re_list_iter_typed kids mg conv conv_none l recurse = Ok vs <->
+  List.Forall2 (fun x v : nat => convert mg conv conv_none x = Ok v)
+  (List.filter (is_match mg) (family kids recurse l)) vs.
+Proof. exact list_all_matches_ok. Qed.
+Print Assumptions C05_list_all_matches_ok.
+
+(* ---- CiscoConfParse.re_match_iter_typed = first match among the root lines ---- *)
+Theorem C05_root_first_match :
+  forall (kids : list (list nat)) (par : nat -> nat) (mg : nat -> mres) (conv : nat -> result nat)
+  (conv_none dconv : result nat) (draw : nat) (untyped : bool),
+  ccp_re_match_iter_typed kids par mg conv conv_none dconv draw untyped =
+  first_match_result mg conv conv_none dconv draw (roots kids par) untyped.
+Proof. exact root_first_match. Qed.
+Print Assumptions C05_root_first_match.
+
+Theorem C05_roots_sorted :
+  forall (kids : list (list nat)) (par : nat -> nat), Sorted.StronglySorted lt (roots kids par).
+Proof. exact roots_sorted. Qed.
+Print Assumptions C05_roots_sorted.
+
+Theorem C05_In_roots :
+  forall (kids : list (list nat)) (par : nat -> nat) (l : nat),
+  List.In l (roots kids par) <-> l < length kids /\ par l = l.
+Proof. exact In_roots. Qed.
+Print Assumptions C05_In_roots.
+
+(* ---- single line (re_match_typed, re_match) ---- *)
+Theorem C05_typed_group :
+  forall (mg : nat -> mres) (conv : nat -> result nat) (dconv : result nat)
+  (draw l : nat) (untyped : bool) (s : nat),
+  mg l = MGrp s -> re_match_typed mg conv dconv draw l untyped = conv s.
+Proof. exact typed_group. Qed.
+Print Assumptions C05_typed_group.
+
+Theorem C05_typed_default :
+  forall (mg : nat -> mres) (conv : nat -> result nat) (dconv : result nat)
+  (draw l : nat) (untyped : bool),
+  mg l = NoM \/ mg l = MNone ->
+  re_match_typed mg conv dconv draw l untyped = (if untyped then Ok draw else dconv).
+Proof. exact typed_default. Qed.
+Print Assumptions C05_typed_default.
+
+Theorem C05_typed_eq_iter_leaf :
+  forall (kids : list (list nat)) (mg : nat -> mres) (conv : nat -> result nat)
+  (conv_none dconv : result nat) (draw l : nat) (recurse untyped : bool),
+  Extract.offspring kids recurse l = nil ->
+  mg l <> MNone ->
+  re_match_iter_typed kids mg conv conv_none dconv draw l recurse untyped =
+  re_match_typed mg conv dconv draw l untyped.
+Proof. exact typed_eq_iter_leaf. Qed.
+Print Assumptions C05_typed_eq_iter_leaf.
+
+Theorem C05_re_match_spec :
+  forall (mg : nat -> mres) (conv : nat -> result nat) (conv_none : result nat) (draw l : nat),
+  re_match mg conv conv_none draw l = (if is_match mg l then convert mg conv conv_none l else Ok draw).
+Proof. exact re_match_spec. Qed.
+Print Assumptions C05_re_match_spec.
+
+(* ---- F24 (information) ---- *)
+Theorem C05_F24_iter_differs_from_typed :
+  exists (mg : nat -> mres) (conv : nat -> result nat) (cnone dconv : result nat)
+  (draw : nat),
+  re_match_iter_typed (nil :: nil) mg conv cnone dconv draw 0 true false <>
+  re_match_typed mg conv dconv draw 0 false.
+Proof. exact F24_iter_differs_from_typed. Qed.
+Print Assumptions C05_F24_iter_differs_from_typed.
